@@ -42,7 +42,11 @@ prop(
     level_text="Generated-input search (rapid, fixed seeds) over git histories against a reference model kept by the generator "
                "(file origins through renames, fork-point content per rule). Says the classification agreed on N generated "
                "histories; no proof of absence.",
-    level_note="Trusts git's exact-rename detection (pure renames are alone in their commit; files are never created and deleted in "
+    level_note="Branch names are drawn per case (feature: feature, fix/main, user/x/main, main2, xmain, release/1.0, fix/master, "
+               "topic/feature; base: main, master; base given by --base-branch, by ci{baseBranch} or as origin/<base> with a "
+               "remote-tracking ref); the feature branch is never the base branch, and every case whose feature branch ends in "
+               "/<base> goes through the real binary (whether `pint ci` runs at all is decided from the names in cmd/pint). "
+               "Trusts git's exact-rename detection (pure renames are alone in their commit; files are never created and deleted in "
                "the same commit) and the harness' YAML renderer (every rule's first line is cross-checked against pint's parse; a "
                "mismatch is reported as inconclusive, not as a violation). Where the statement does not determine one answer the "
                "reference accepts a set: several rules of one kind+name on a side (added/modified), a changed rule in a renamed file "
